@@ -21,10 +21,10 @@ RULE = (
     'Non-trivial (list): >=3 entries incl. a query with features at some point and >=1 edit; distinct by case.'
 )
 ASSUMPTIONS = [
-    'ratio values (16/9) and calc() are outside the documented media query grammar and not generated',
+    'calc() is outside the documented media query grammar and not generated',
     'MediaList.wellformed and len() (which counts comments) are not asserted; length/item/iteration are',
     'appending to an *empty* list is allowed (only a list that contains the type all rejects appends)',
-    'list[i]= is exercised only where it cannot create a duplicate or an un-collapsed all (documented as not yet handled; listed as finding F17-1) and only on comment-free lists',
+    'list[i]= keeps the new entry in place and removes an older entry of the same simple type (all: every other entry), as setting mediaText canonicalises',
 ]
 
 TYPES = ['all', 'braille', 'handheld', 'print', 'projection', 'speech', 'screen', 'tty', 'tv', 'embossed']
@@ -144,7 +144,7 @@ def meaning(toklist):
 def observe(ml):
     with lib('observe'):
         n = ml.length
-        qs = [q.value for q in ml]
+        qs = [ml[i] for i in range(len(ml))]
         texts = [q.mediaText for q in qs]
         items = [ml.item(i) for i in range(n)]
         beyond = ml.item(n)
@@ -181,7 +181,7 @@ def compare(ml, model, step, owner=None):
     try:
         with lib('reparse', expect=(xml.dom.DOMException,)):
             re_ = MediaList(text)
-            got2 = [ptoks(q.value.mediaText) for q in re_]
+            got2 = [ptoks(re_[i].mediaText) for i in range(len(re_))]
     except xml.dom.DOMException as e:
         raise Violation('reparse:rejected', f'after {step}: mediaText {text!r} does not parse: {e}')
     if meaning(got2) != meaning(exp):
@@ -197,7 +197,8 @@ def compare(ml, model, step, owner=None):
             sheet2 = parser.parseString(rt)
             if sheet2.cssRules.length != 1 or sheet2.cssRules[0].type != rule.type:
                 raise Violation('owner:rule-lost', f'after {step}: {rt!r}')
-            got3 = [ptoks(q.value.mediaText) for q in sheet2.cssRules[0].media]
+            m3 = sheet2.cssRules[0].media
+            got3 = [ptoks(m3[i].mediaText) for i in range(len(m3))]
         if meaning(got3) != meaning(exp):
             raise Violation('owner:reparse-differs', f'after {step}: rule text {rt!r} gives {got3}, list is {exp}')
 
@@ -294,11 +295,12 @@ def _check_list(case, ctx):
                 continue
             if has_comment(ml):
                 ctx.event('setitem-with-comments-in-list')
-            others = [x for j, x in enumerate(model) if j != i]
-            if (s is not None and any(simple(x) == s for x in others)) or (s == 'all' and others) or any(simple(x) == 'all' for x in others):
-                ctx.event('excluded:setitem-would-duplicate(F17-1)')
-                continue
-            newmodel = model[:i] + [e] + model[i + 1:]
+            # the new entry stays at its place; an older entry of the same simple type goes,
+            # and 'all' replaces every other entry (as setting mediaText does it; finding F17-1, repaired)
+            marked = [(j == i, x) for j, x in enumerate(model[:i] + [e] + model[i + 1:])]
+            if s is not None and any(not isnew and (s == 'all' or simple(x) == s) for isnew, x in marked):
+                ctx.event('setitem-canonicalises')
+            newmodel = [x for isnew, x in marked if isnew or s is None or not (s == 'all' or simple(x) == s)]
             call = lambda: ml.__setitem__(i, render_entry(e, o[3]))  # noqa: E731
         elif o[0] == 'delitem':
             i = o[1]
